@@ -3,6 +3,7 @@ package value
 import (
 	"fmt"
 	"sync"
+	"sync/atomic"
 )
 
 var MutexClass *Class              // ::Std::Sync::Mutex
@@ -11,6 +12,7 @@ var MutexUnlockedErrorClass *Class // ::Std::Sync::Mutex::UnlockedError
 // Wraps a Go mutex.
 type Mutex struct {
 	Native sync.Mutex
+	held   atomic.Bool // true while the mutex is locked through Lock
 }
 
 func NewMutex() *Mutex {
@@ -55,14 +57,15 @@ func (*Mutex) InstanceVariables() *InstanceVariables {
 
 func (m *Mutex) Lock() {
 	m.Native.Lock()
+	m.held.Store(true)
 }
 
 func (m *Mutex) Unlock() (err Value) {
-	defer func() {
-		if r := recover(); r != nil {
-			err = Ref(NewError(MutexUnlockedErrorClass, "cannot unlock an unlocked mutex"))
-		}
-	}()
+	// unlocking an unlocked sync.Mutex is a fatal error that cannot be recovered,
+	// so the state is tracked explicitly; only one of several racing unlockers wins
+	if !m.held.CompareAndSwap(true, false) {
+		return Ref(NewError(MutexUnlockedErrorClass, "cannot unlock an unlocked mutex"))
+	}
 
 	m.Native.Unlock()
 	return Undefined
